@@ -1,6 +1,7 @@
 package rules
 
 import (
+	"go/types"
 	"fmt"
 	"go/token"
 	"sort"
@@ -112,18 +113,18 @@ func c05(r *core.Run) {
 	}
 	r.Floor("C05.HASHAGREE", "index prefix variables keyed by a hash field", len(globalField), 2)
 	nPref := 0
+	// how the writers assemble the key of each index (Sprintf or concatenation, it does not matter)
 	writerFormat := map[string]string{}
 	for g := range globalField {
 		for _, b := range builders {
 			for _, gg := range globalsReadBy(b) {
-				if gg == g {
-					core.InstrsOf(b, func(in ssa.Instruction) {
-						if c, ok := in.(*ssa.Call); ok && core.CalleeName(&c.Call) == "fmt.Sprintf" {
-							if f, ok := core.ConstString(c.Call.Args[0]); ok {
-								writerFormat[g] = f
-							}
-						}
-					})
+				if gg != g {
+					continue
+				}
+				for _, ret := range core.Returns(b) {
+					if t := keyTemplate(ret.Results[0], 0); len(t) > 0 && t[0].kind == "glob" && t[0].text == g {
+						writerFormat[g] = renderTemplate(t)
+					}
 				}
 			}
 		}
@@ -132,38 +133,51 @@ func c05(r *core.Run) {
 		if _, isBuilder := builders[fn.Name()]; isBuilder && fn.Parent() == nil {
 			continue
 		}
+		seenRoot := map[ssa.Value]bool{}
 		core.InstrsOf(fn, func(in ssa.Instruction) {
-			c, ok := in.(*ssa.Call)
-			if !ok || core.CalleeName(&c.Call) != "fmt.Sprintf" {
-				return
-			}
-			format, ok := core.ConstString(c.Call.Args[0])
-			if !ok {
-				return
-			}
-			args, ok := varargElems(c.Call.Args[1])
-			if !ok || len(args) < 2 {
-				return
-			}
-			g := ""
-			if u, ok := core.Unwrap(args[0]).(*ssa.UnOp); ok {
-				if gl, ok := u.X.(*ssa.Global); ok {
-					g = gl.Name()
+			// candidate roots: conversions to []byte and Sprintf results that are not themselves converted
+			var root ssa.Value
+			switch x := in.(type) {
+			case *ssa.Convert:
+				if x.Type().String() == "[]byte" {
+					root = x
+				}
+			case *ssa.Call:
+				if core.CalleeName(&x.Call) == "fmt.Sprintf" {
+					root = x
+					if refs := x.Referrers(); refs != nil {
+						for _, ref := range *refs {
+							if cv, ok := ref.(*ssa.Convert); ok && cv.Type().String() == "[]byte" {
+								root = nil
+							}
+						}
+					}
 				}
 			}
+			if root == nil || seenRoot[root] {
+				return
+			}
+			seenRoot[root] = true
+			t := keyTemplate(root, 0)
+			if len(t) < 2 || t[0].kind != "glob" || t[1].kind != "arg" {
+				return
+			}
+			g := t[0].text
 			f, isHashPrefix := globalField[g]
 			if !isHashPrefix {
 				return
 			}
 			nPref++
-			h := hashOf(args[1])
+			format := renderTemplate(t)
+			harg := t[1].val
+			h := hashOf(harg)
 			fromParam := false
-			if _, isParam := core.Unwrap(core.Resolve(args[1])).(*ssa.Parameter); isParam {
+			if _, isParam := core.Unwrap(core.Resolve(harg)).(*ssa.Parameter); isParam {
 				fromParam = true // lookup API taking the hash from its caller
 			}
-			r.Check((h != nil && producers[f][h]) || fromParam, "C05.HASHAGREE", core.FuncName(fn)+"#lookup-prefix("+g+")", c.Pos(), "index is probed with the "+f+" computed by the indexing hash function", "the "+g+" index is probed with "+core.Canon(args[1])+", not with the hash function used when indexing")
+			r.Check((h != nil && producers[f][h]) || fromParam, "C05.HASHAGREE", core.FuncName(fn)+"#lookup-prefix("+g+")", in.Pos(), "index is probed with the "+f+" computed by the indexing hash function", "the "+g+" index is probed with "+core.Canon(harg)+", not with the hash function used when indexing")
 			wf := writerFormat[g]
-			r.Check(wf != "" && strings.HasPrefix(wf, format), "C05.KEYAGREE", core.FuncName(fn)+"#reader-prefix("+g+")", c.Pos(), fmt.Sprintf("reader format %q is a prefix of writer format %q", format, wf), fmt.Sprintf("reader format %q is not a prefix of the writer's key format %q: indexed entries are not found", format, wf))
+			r.Check(wf != "" && strings.HasPrefix(wf, format), "C05.KEYAGREE", core.FuncName(fn)+"#reader-prefix("+g+")", in.Pos(), fmt.Sprintf("reader template %q is a prefix of the writer's key template %q", format, wf), fmt.Sprintf("reader template %q is not a prefix of the writer's key template %q: indexed entries are not found", format, wf))
 		})
 	}
 	r.Floor("C05.KEYAGREE", "hash-index prefix probes", nPref, 5)
@@ -265,14 +279,30 @@ func c05Pack(r *core.Run) {
 	})
 	decLayout := map[int]string{}
 	for _, ret := range core.Returns(dec) {
-		if len(ret.Results) < 3 {
+		results := ret.Results
+		// a decoder that returns one struct: its fields, in declaration order, are the results
+		if len(results) == 1 {
+			if st, ok := core.Deref(results[0].Type()).Underlying().(*types.Struct); ok {
+				var fs []ssa.Value
+				for i := 0; i < st.NumFields(); i++ {
+					v, ok := core.StructLitField(results[0], st.Field(i).Name())
+					if !ok || v == nil {
+						fs = nil
+						break
+					}
+					fs = append(fs, v)
+				}
+				results = fs
+			}
+		}
+		if len(results) < 3 {
 			continue
 		}
-		flag, isC := ret.Results[len(ret.Results)-1].(*ssa.Const)
+		flag, isC := results[len(results)-1].(*ssa.Const)
 		if !isC || flag.Value == nil || flag.Value.String() != "true" {
 			continue
 		}
-		for i, res := range ret.Results[:len(ret.Results)-1] {
+		for i, res := range results[:len(results)-1] {
 			switch x := res.(type) {
 			case *ssa.Call:
 				if core.CalleeName(&x.Call) == "math.Float64frombits" {
